@@ -1,5 +1,6 @@
 (* C07 — Corrupt or hostile bytes never panic or hang any decode entry point (partial). *)
-From QCo.Lemmas Require Import Tactics CodecL NoPanicL.
+From QCo.Lemmas Require Import Tactics CodecL NoPanicL FastL.
+From QCo.Model Require Import Fast.
 From QCo.Model Require Import Reader.
 From QCo.Model Require Import Base Consts DType Codec.
 Open Scope N_scope.
@@ -50,3 +51,17 @@ Proof. exact decode_file_no_panic. Qed.
 Theorem C07_parsed_metadata_sane : forall f d s m r, parse_meta f d s = Ok (m, r) ->
   Forall (sane_prefix (ubits (pdt f d))) (m_table m).
 Proof. exact parse_meta_sane. Qed.
+
+(* The unchecked fast decode path of the real reader (Model/Fast.v: unchecked reads on the
+   zero-padded word buffer — reading past the last word is Panic —, guarded by
+   guaranteed_safe_num_blocks >= 30 computed from max_bits_read / max_bits_overshot as in
+   num_decompressor.rs) is, on every chunk whose metadata parsed and for EVERY stream (hostile
+   bits included), every limit and every state, exactly the checked batch decoder used in the
+   reader model: it never reads past the real data and never panics.  This is what justifies
+   treating the fast path by its contract in Reader.v. *)
+Theorem C07_fast_path_is_checked_path : forall f d s0 m r c,
+  parse_meta f d s0 = Ok (m, r) -> new_cbd f m = Ok c ->
+  forall tb nproc inc limit eoi s,
+  fast_batch (ubits (pdt f d)) (phys (pdt f d)) tb (c_table c) (c_n c - nproc) inc limit eoi s
+  = read_batch (ubits (pdt f d)) tb (c_table c) (c_n c - nproc) inc limit eoi s.
+Proof. exact parsed_chunk_fast_batch_eq. Qed.
